@@ -33,7 +33,13 @@ RULE = ("pairs of documents x array modes {position, value} x AoH modes {positio
         "rules on mappings and scalars, "
         "(8) yaml-diff main() also under every output-selection option (-s/--same, -o/--onlysame, -q/--quiet, -v, and the "
         "combinations the command accepts) and with such [rules]/[keys] files: exit 0 <=> report clean <=> data-equal, "
-        "whatever is displayed.  "
+        "whatever is displayed, "
+        "(9) the cases of (7) with 1-3 [rules] / [keys] entries added whose path matches NO node of the right-hand document "
+        "(a missing sibling key, a path below a missing mapping, a list only the left document holds) at random positions of "
+        "their section - before, between, after the entries that match: judged by the clauses with the matching entries only, "
+        "(10) ONE Differ taken through 2-3 comparisons (right documents: identical copy / edited / unrelated, in any order), "
+        "get_report() read 0-2 times after each: every report read is judged by the clauses for (left, right of that step); "
+        "a clause failing there and not on a fresh Differ's report for the same pair is a violation.  "
         "DIRECT checks on the real report, independent of the model: every entry true of the two documents and every "
         "leaf covered (positional modes), clean <=> data-equal (all modes), every left/right index of a synchronisation "
         "accounted for exactly once, exit status 0 <=> clean.  Correspondence: the report as a sorted list of "
@@ -962,8 +968,46 @@ def rule_model_corpus():
 def ini_text(case):
     def line(path, val):
         return "/%s = %s\n" % ("/".join(path), val)
-    return ("[rules]\n" + "".join(line(p_, m) for p_, m in case.get("rules", [])) +
-            "[keys]\n" + "".join(line(p_, k) for p_, k in case.get("keys", [])))
+    return ("[rules]\n" + "".join(line(e[0], e[1]) for e in case.get("rules", [])) +
+            "[keys]\n" + "".join(line(e[0], e[1]) for e in case.get("keys", [])))
+
+
+DEAD_NAMES = ["nope", "gone", "zz9", "missing"]
+
+
+def with_dead_entries(rng, c):
+    """the case with 1-3 [rules] / [keys] entries added whose path matches NO node of the right-hand document (the
+    document the configuration is matched against): a sibling key that does not exist, a path below a missing
+    mapping, or the path of a list only the LEFT document has — at random positions of their section, so before,
+    between and after the entries that do match.  Such an entry speaks of no node (the tool warns and goes on);
+    every other entry keeps its meaning, which is what the oracle (the entries without the dead ones) judges.
+    Dead entries are marked [path, text, "dead"]."""
+    c = json.loads(json.dumps(c))
+    live = [tuple(e[0]) for e in c["rules"] + c["keys"]] or [()]
+    taken = set(tuple(e[0]) for e in c["rules"] + c["keys"])
+    rkeys = set(str(k) for k, _v in c["r"]["e"]) if c["r"]["k"] == "map" else set()
+    for _ in range(rng.choice([1, 1, 2, 3])):
+        base = list(rng.choice(live))
+        name = rng.choice(DEAD_NAMES)
+        r = rng.random()
+        if r < 0.4 and base:
+            path = base[:-1] + [name]
+        elif r < 0.6:
+            path = [name, rng.choice(["p", "x"])]
+        elif r < 0.8 and c["l"]["k"] == "map" and c["r"]["k"] == "map" and name not in rkeys:
+            # a list that only the left document holds
+            if not any(str(k) == name for k, _v in c["l"]["e"]):
+                c["l"]["e"].insert(rng.randint(0, len(c["l"]["e"])), [name, rule_list(rng)])
+            path = [name]
+        else:
+            path = [name]
+        if tuple(path) in taken or (len(path) == 1 and path[0] in rkeys):
+            continue
+        taken.add(tuple(path))
+        sec = "rules" if (rng.random() < 0.65 or not c["keys"]) else "keys"
+        text = rng.choice(["value", "position", "key", "deep"]) if sec == "rules" else rng.choice(["id", "n"])
+        c[sec].insert(rng.randint(0, len(c[sec])) if rng.random() < 0.6 else 0, [path, text, "dead"])
+    return c
 
 
 def rule_identity_trouble(arr, aoh, rules, keys, lp, rp):
@@ -1061,8 +1105,8 @@ def rule_corpus_cases():
 
 
 def rule_case_parts(c):
-    rules = {tuple(p_): m for p_, m in c.get("rules", [])}
-    keys = {tuple(p_): k for p_, k in c.get("keys", [])}
+    rules = {tuple(e[0]): e[1] for e in c.get("rules", []) if len(e) == 2}
+    keys = {tuple(e[0]): e[1] for e in c.get("keys", []) if len(e) == 2}
     return c["arr"] or "position", c["aoh"] or "position", rules, keys
 
 
@@ -1086,6 +1130,11 @@ def rule_cases(cases):
                 fh.write(ini_text(c))
             stats["n"] += 1
             count("gen:rules")
+            dead = [e for sec in ("rules", "keys") for e in c.get(sec, []) if len(e) == 3]
+            if dead:
+                count("rules:with-dead-path")
+                if any(len(e) == 3 and any(len(f) == 2 for f in c[sec][i + 1:]) for sec in ("rules", "keys") for i, e in enumerate(c.get(sec, []))):
+                    count("rules:dead-path-before-live-entry")
             sz = size(lj) + size(rj)
             case = dict(c, ini=ini_text(c))
             im = impl_report(lj, rj, c["arr"], c["aoh"], config=cf)
@@ -1173,6 +1222,117 @@ def rule_cases(cases):
     import hashlib
     stats["nontrivial"] = [hashlib.blake2b(s_.encode(), digest_size=8).hexdigest() for s_ in stats["nontrivial"]]
     return stats, per_sig(viol), per_sig(disag), []
+
+
+# --------------------------------------------------------------------------- one Differ, several comparisons
+
+def canon_report(d):
+    rep = []
+    for e in d.get_report():
+        act = e.action.name.lower()
+        lhs = None if act == "add" else codec.node_to_json(e._lhs, anchors=False)
+        rhs = None if act == "delete" else codec.node_to_json(e._rhs, anchors=False)
+        rep.append([act, seg_canon(e.path), lhs, rhs])
+    rep.sort(key=lambda x: json.dumps(x, sort_keys=True))
+    return rep
+
+
+def impl_reuse(lj, rjs, arr, aoh, reads, limit_s=30.0):
+    """ONE Differ for the left document; compare_to(right_i) in turn, get_report() read reads[i] times after each.
+    {"steps": [[report, ...], ...]} | {"crash": ..., "step": i} | {"timeout": 1}"""
+    from yamlpath.differ import Differ, DifferConfig
+    log = core.quiet_logger()
+    old = signal.signal(signal.SIGVTALRM, _alarm)
+    signal.setitimer(signal.ITIMER_VIRTUAL, limit_s)
+    steps = []
+    try:
+        cfg = DifferConfig(log, SimpleNamespace(arrays=arr, aoh=aoh, config=None))
+        d = Differ(cfg, log, codec.json_to_ruamel(lj))
+        for rj, n in zip(rjs, reads):
+            d.compare_to(codec.json_to_ruamel(rj))
+            steps.append([canon_report(d) for _ in range(n)])
+        return {"steps": steps}
+    except Timeout:
+        return {"timeout": 1}
+    except Exception as e:  # noqa
+        return {"crash": type(e).__name__, "site": core.crash_site(e), "step": len(steps)}
+    finally:
+        signal.setitimer(signal.ITIMER_VIRTUAL, 0)
+        signal.signal(signal.SIGVTALRM, old)
+
+
+def reuse_cases(cases):
+    """cases: (lj, [rj...], arr, aoh, [reads...]).  The clauses are judged on every report read from the REUSED Differ,
+    for the pair (left, right of that step); the oracle for what the pinned code is known to get wrong on that pair is
+    a FRESH Differ (and fresh DifferConfig) for that single comparison: a clause that fails on the reused object's
+    report and not on the fresh one's is a violation `reuse:<clause>`."""
+    stats = {"n": 0, "hist": {}, "nontrivial": [], "out_of_model": 0}
+    viol, disag = [], []
+
+    def count(k, n=1):
+        stats["hist"][k] = stats["hist"].get(k, 0) + n
+
+    for (lj, rjs, arr, aoh, reads) in cases:
+        stats["n"] += 1
+        count("gen:reuse")
+        sz = size(lj) + sum(size(r) for r in rjs)
+        case = {"reuse": True, "l": lj, "rs": rjs, "arr": arr, "aoh": aoh, "reads": reads}
+        im = impl_reuse(lj, rjs, arr, aoh, reads)
+        if "timeout" in im:
+            im = impl_reuse(lj, rjs, arr, aoh, reads, limit_s=240.0)
+        fresh = [impl_report(lj, rj, arr, aoh, limit_s=120.0) for rj in rjs]
+        if "timeout" in im:
+            viol.append((sz, "timeout", "a sequence of %d comparisons on one Differ did not return" % len(rjs), case))
+            continue
+        if "crash" in im:
+            if all("rep" in f for f in fresh[:im["step"] + 1]):
+                viol.append((sz, "reuse:crash:%s@%s" % (im["crash"], im["site"]),
+                             "comparison %d on a reused Differ raised %s; a fresh Differ compares the same pair" % (im["step"] + 1, im["crash"]), case))
+            else:
+                count("reuse:crash-also-fresh")
+            continue
+        for i, (reps, f) in enumerate(zip(im["steps"], fresh)):
+            if "rep" not in f or not reps:
+                count("reuse:step-not-judged")
+                continue
+            count("reuse:steps-judged")
+            if i > 0:
+                count("reuse:later-steps-judged")
+                if any(im["steps"][j] for j in range(i)):
+                    count("reuse:later-step-after-a-read")
+            known = set(n_ for n_, _w in direct_checks(lj, rjs[i], arr, aoh, f["rep"]))
+            done = False
+            for rn, rep in enumerate(reps):
+                for (name, what) in direct_checks(lj, rjs[i], arr, aoh, rep):
+                    if name in known:
+                        continue
+                    viol.append((sz, "reuse:" + name, "comparison %d of %d on one Differ (report read %d time(s) before), read %d: %s (arrays=%s, aoh=%s)" % (
+                        i + 1, len(rjs), sum(reads[:i]), rn + 1, what, arr, aoh), dict(case, step=i, impl=rep, fresh=f["rep"])))
+                    done = True
+                    break
+                if done:
+                    break
+                if rep != f["rep"]:
+                    disag.append((sz, "reuse:report-differs-from-fresh", "comparison %d on a reused Differ: the report differs from a fresh Differ's" % (i + 1),
+                                  dict(case, step=i, impl=rep, fresh=f["rep"])))
+                    break
+            if reps and reps[0]:
+                stats["nontrivial"].append(json.dumps([lj, rjs, arr, aoh, reads, i], sort_keys=True))
+    import hashlib
+    stats["nontrivial"] = [hashlib.blake2b(s_.encode(), digest_size=8).hexdigest() for s_ in stats["nontrivial"]]
+    return stats, per_sig(viol), per_sig(disag), []
+
+
+def rand_reuse_case(rng):
+    a, b, _tag = random_pair(rng)
+    pool = [lambda: json.loads(json.dumps(a)), lambda: edit(rng, a), lambda: edit(rng, edit(rng, a)), lambda: b,
+            lambda: rand_doc(rng, rng.randint(1, 8)), lambda: json.loads(json.dumps(a))]
+    n = rng.choice([2, 2, 3])
+    rjs = [rng.choice(pool)() for _ in range(n)]
+    reads = [rng.choice([0, 1, 1, 2]) for _ in range(n)]
+    reads[-1] = max(1, reads[-1])
+    x, h = rng.choice(MODES)
+    return (a, rjs, x, h, reads)
 
 
 # --------------------------------------------------------------------------- CLI sample
@@ -1370,6 +1530,8 @@ def _job(job):
         return ("sync", sync_cases(payload))
     if kind_ == "rules":
         return ("diff", rule_cases(payload))
+    if kind_ == "reuse":
+        return ("diff", reuse_cases(payload))
     return ("cli", cli_cases(payload))
 
 
@@ -1457,7 +1619,14 @@ def build_jobs(chk, scale=1):
     rl = rule_corpus_cases() + [rand_rule_case(rng2) for _ in range((6000 if tier == "quick" else 80000) * scale)]
     rng3 = random.Random(chk.seed * 11 + 5)
     rl += rule_model_corpus() + [rand_rule_case_model(rng3) for _ in range((3000 if tier == "quick" else 40000) * scale)]
+    # entries whose path matches no node of the right-hand document, before / between / after the live ones
+    rng4 = random.Random(chk.seed * 13 + 7)
+    rl += [with_dead_entries(rng4, rand_rule_case(rng4)) for _ in range((2500 if tier == "quick" else 30000) * scale)]
     jobs += [("rules", c) for c in core.chunked(rl, 32)]
+    # one Differ object taken through 2-3 comparisons, the report read in between
+    rng5 = random.Random(chk.seed * 17 + 11)
+    ru = [rand_reuse_case(rng5) for _ in range((2500 if tier == "quick" else 30000) * scale)]
+    jobs += [("reuse", c) for c in core.chunked(ru, 32)]
     return jobs
 
 
@@ -1512,6 +1681,8 @@ def run(chk: core.Check):
         elif c.get("cli"):
             extra = {k: c[k] for k in ("display", "rules", "keys") if k in c}
             res = [("cli", cli_cases([(c["l"], c["r"], c["arr"], c["aoh"], "replay", extra)]))]
+        elif c.get("reuse"):
+            res = [("diff", reuse_cases([(c["l"], c["rs"], c["arr"], c["aoh"], c["reads"])]))]
         elif "rules" in c or "keys" in c:
             res = [("diff", rule_cases([c]))]
         else:
@@ -1536,7 +1707,7 @@ def widen(chk: core.Check):
     saved = chk.seed
     chk.seed = chk2_seed
     try:
-        jobs = [j for j in build_jobs(chk, scale=10) if j[0] in ("diff", "rules")]
+        jobs = [j for j in build_jobs(chk, scale=10) if j[0] in ("diff", "rules", "reuse")]
     finally:
         chk.seed = saved
     chk._c06_v, chk._c06_d = [], []
